@@ -187,8 +187,15 @@ func (s *Server) sendTransaction(t Transaction) error {
 		return nil
 	}
 
-	_, err := io.Copy(client.Connection, &t)
+	// Serialise the whole transaction and hand it to the connection in a single Write: transactions for one client
+	// are sent from concurrent goroutines, and io.Copy would emit a large transaction in several Write calls that
+	// can interleave with another transaction's bytes.
+	b, err := io.ReadAll(&t)
 	if err != nil {
+		return fmt.Errorf("failed to serialise transaction for client %v: %v", t.ClientID, err)
+	}
+
+	if _, err := client.Connection.Write(b); err != nil {
 		return fmt.Errorf("failed to send transaction to client %v: %v", t.ClientID, err)
 	}
 
